@@ -14,7 +14,8 @@ Require Import GV.Base.Res GV.Base.Byt GV.Base.Ints GV.Model.Leb GV.Model.Prim
                GV.Spec.LebSpec GV.Spec.FormSpec GV.Model.Attr GV.Spec.Forest GV.Model.AbbrevRd
                GV.Model.DieRd GV.Proofs.AttrProofs GV.Proofs.AbbrevRdProofs GV.Proofs.DieRdProofs GV.Proofs.NavProofs
                GV.Spec.ForestSel GV.Model.TreeWalk GV.Proofs.TreeWalkProofs GV.Proofs.CursorWalkProofs
-               GV.Proofs.SibBadProofs.
+               GV.Proofs.SibBadProofs GV.Proofs.SibOvProofs GV.Proofs.SibOvTreeProofs
+               GV.Proofs.SibOvSibProofs.
 Import ListNotations.
 Local Open Scope N_scope.
 
@@ -484,6 +485,103 @@ Proof.
   split; [right; vm_compute; right; left; reflexivity|].
   split; [right; vm_compute; right; right; reflexivity|].
   split; [right; vm_compute; exact I|].
+  vm_compute. reflexivity.
+Qed.
+
+(* (6e) WHOLE traversals of units with wrong DW_AT_sibling values — PARTIAL.
+        SibOvProofs.enc_forest_ov = the encoder enc_forest with a per-entry override `ov : offset -> option N`
+        of the value written into the entry's DW_AT_sibling slots (same form and width: DW_FORM_ref1/2/4/8;
+        sibs_fit_ov: the value fits the width), so no length and no offset changes (first conjunct; with
+        ov = none it is enc_forest: SibOvProofs.enc_tree_ov_none). The full depth-first cursor walk of
+        dfs_is_preorder (next_dfs loop) reports preorder_ov = preorder f with the overridden value shown in
+        those slots — every offset, depth, tag, children flag and every other attribute as in preorder f.
+        next_dfs never consults the attribute, so this half holds for EVERY override value, in particular for
+        all of the ignored class (backward, self, inside the entry, beyond the unit end).
+        The tree walk and the next_sibling walk follow below (bad_sibling_full_walk_tree_partial,
+        bad_sibling_full_walk). *)
+Theorem bad_sibling_full_walk_partial : forall dbg bigend types uoff h codes (ov : N -> option N) f pad tbl,
+  let e := mkEnc (uh_version h) (uh_fmt64 h) (uh_asize h) bigend in
+  let body := SibOvProofs.enc_forest_ov codes ov bigend (header_len h) f pad in
+  let hdr := mkUnit e (unit_length_of bigend h (nlen body)) (uh_type h) (uh_abbrev_off h) types uoff body in
+  addr_size_ok e -> header_len h + nlen body < two63 ->
+  Forall (fun t => tbl_get tbl (t_code codes t) = Some (t_abbrev codes t)) (forest_nodes f) ->
+  forest_ok codes e f -> SibOvProofs.sibs_fit_ov codes ov (header_len h) f ->
+  nlen body = nlen (enc_forest codes bigend (header_len h) f pad) /\
+  exists c, entries dbg hdr = Ok c /\
+            dfs_all (cursor_fuel c) dbg e tbl c = Ok (SibOvProofs.preorder_ov codes ov (header_len h) 0 f, None).
+Proof.
+  intros dbg bigend types uoff h codes ov f pad tbl e body hdr He Hlen Hc Hok Hfit. split.
+  - exact (SibOvProofs.enc_forest_ov_len codes ov bigend (header_len h) f pad).
+  - exact (SibOvProofs.dfs_ov dbg bigend types uoff h codes ov f pad tbl He Hlen Hc Hok Hfit).
+Qed.
+
+(* the tree walk of tree_is_forest (children() of every node, entries_tree(None)) over the same units: it
+   rebuilds the tree with the overridden value shown in the DW_AT_sibling slots (dtree_ov). A walk that
+   iterates every child list calls EntriesTree::next only on entries without children or on list
+   terminators, so the fast path never runs: EVERY override value, the ignored class included.
+   The next_sibling walk, which consults the attribute, is bad_sibling_full_walk below. *)
+Theorem bad_sibling_full_walk_tree_partial : forall dbg bigend types uoff h codes (ov : N -> option N) t f pad tbl,
+  let e := mkEnc (uh_version h) (uh_fmt64 h) (uh_asize h) bigend in
+  let body := SibOvProofs.enc_forest_ov codes ov bigend (header_len h) (t :: f) pad in
+  let hdr := mkUnit e (unit_length_of bigend h (nlen body)) (uh_type h) (uh_abbrev_off h) types uoff body in
+  addr_size_ok e -> header_len h + nlen body < two63 ->
+  Forall (fun t => tbl_get tbl (t_code codes t) = Some (t_abbrev codes t)) (forest_nodes (t :: f)) ->
+  forest_ok codes e (t :: f) -> SibOvProofs.sibs_fit_ov codes ov (header_len h) (t :: f) ->
+  exists ts, entries_tree dbg hdr None = Ok ts /\
+             walk_tree dbg e tbl ts = Ok (Some (SibOvTreeProofs.dtree_ov codes ov 0 (header_len h) t), None).
+Proof.
+  intros dbg bigend types uoff h codes ov t f pad tbl e body hdr He Hlen Hc Hok Hfit.
+  exact (SibOvTreeProofs.tree_ov dbg bigend types uoff h codes ov t f pad tbl He Hlen Hc Hok Hfit).
+Qed.
+
+(* the walk that CONSULTS the attribute: next_entry to the first top-level entry, then next_sibling until
+   None. The DW_AT_sibling values of ANY subset of the entries (at any depth: every subtree the walk passes
+   over) are replaced by values of the IGNORED class — SibOvSibProofs.ig: backward or the entry itself
+   (w <= offset), inside the entry's own bytes (w < offset of its first child / end of its attributes), or
+   beyond the end of the unit (header_len + |body| < w); the remaining entries keep the correct value. The
+   walk still returns exactly the root entries of the following top-level siblings (roots_ov = roots f with
+   the overridden value shown in the slots), then None: overridden entries are scanned
+   (bad_sibling_ignored), correct ones may jump, both reach the state behind the subtree
+   (SibOvSibProofs.skip_tree_ov). Not covered: a non-reference FORM in the slot (the override keeps
+   DW_FORM_ref1/2/4/8, so lengths are unchanged), next_sibling started from an inner entry's list and the
+   cloned-cursor recursion over overridden units (the step lemmas skip_tree_ov / siblings_iter_ov are stated
+   for any depth and offset). *)
+Theorem bad_sibling_full_walk : forall dbg bigend types uoff h codes (ov : N -> option N) t f pad tbl,
+  let e := mkEnc (uh_version h) (uh_fmt64 h) (uh_asize h) bigend in
+  let body := SibOvProofs.enc_forest_ov codes ov bigend (header_len h) (t :: f) pad in
+  let hdr := mkUnit e (unit_length_of bigend h (nlen body)) (uh_type h) (uh_abbrev_off h) types uoff body in
+  addr_size_ok e -> header_len h + nlen body < two63 ->
+  Forall (fun t => tbl_get tbl (t_code codes t) = Some (t_abbrev codes t)) (forest_nodes (t :: f)) ->
+  forest_ok codes e (t :: f) -> SibOvProofs.sibs_fit_ov codes ov (header_len h) (t :: f) ->
+  Forall (SibOvSibProofs.ig codes ov (header_len h + nlen body))
+         (on_list (placed codes) (tree_size codes) (header_len h) (t :: f)) ->
+  exists c c1, entries dbg hdr = Ok c /\ next_entry dbg e tbl c = Ok (SOk true c1) /\
+               c_cur c1 = SibOvProofs.root_die_ov codes ov (header_len h) 0 t /\
+               siblings_all (cursor_fuel c1) dbg e tbl c1 =
+                 Ok (SibOvSibProofs.roots_ov codes ov (header_len h + tree_size codes t) 0 f, None).
+Proof.
+  intros dbg bigend types uoff h codes ov t f pad tbl e body hdr He Hlen Hc Hok Hfit Hig.
+  exact (SibOvSibProofs.siblings_ov dbg bigend types uoff h codes ov t f pad tbl He Hlen Hc Hok Hfit Hig).
+Qed.
+
+(* ex_root (offset 11) carries a DW_FORM_ref1 DW_AT_sibling; overridden by 11 (the entry itself) only the
+   byte of that slot changes (0x1a -> 0x0b) and the reported entry shows the overridden value *)
+Example bad_sibling_full_walk_ex :
+  let ov := fun o => if o =? 11 then Some 11 else None in
+  SibOvProofs.enc_forest_ov ex_codes ov false (header_len ex_header) ex_forest 1 =
+    [xe8;x07; x0b; x2a;  x03; x2a;  x85;x80;x80;x80;x10; x00;  x03; x2a;  x00;  x00]%byte /\
+  SibOvProofs.sibs_fit_ov ex_codes ov (header_len ex_header) ex_forest /\
+  SibOvSibProofs.ig ex_codes ov 27 (11, ex_root) /\
+  map d_offset (SibOvProofs.preorder_ov ex_codes ov (header_len ex_header) 0 ex_forest) = [11; 15; 17; 23] /\
+  SibOvProofs.preorder_ov ex_codes (fun _ => None) (header_len ex_header) 0 ex_forest =
+    preorder ex_codes (header_len ex_header) 0 ex_forest.
+Proof.
+  split; [vm_compute; reflexivity|]. split; [|split; [left; vm_compute; discriminate|split; vm_compute; reflexivity]].
+  unfold SibOvProofs.sibs_fit_ov.
+  replace (on_list (placed ex_codes) (tree_size ex_codes) (header_len ex_header) ex_forest)
+    with [(11, ex_root); (15, ex_k1); (17, ex_k2); (23, ex_k1)] by (vm_compute; reflexivity).
+  repeat (apply Forall_cons); try apply Forall_nil; unfold SibOvProofs.fits_ov; cbn [fst snd t_items ex_root ex_k1 ex_k2];
+    repeat (apply Forall_cons); try apply Forall_nil; try exact I.
   vm_compute. reflexivity.
 Qed.
 
